@@ -286,7 +286,7 @@ Lemma patch_veto c s p n pc :
   exists s', patch c s p n = Ok s' (RBool false) /\ s_puniv s' p = s_puniv s p.
 Proof.
   intros I Hp Hv Hn. pose proof (patch_inv c s p n I) as (s' & b & E & I' & K & R).
-  unfold patch in *. rewrite Hp in *.
+  unfold patch, patch_v in *. rewrite Hp in *.
   destruct (s_puniv s p) as [o|] eqn:Eq.
   - destruct (inv_plive _ _ I p o Eq) as (u & Hu). unfold deref in *. rewrite Hu in *.
     destruct (N.eqb_spec (u_num u) n) as [En|En].
